@@ -54,7 +54,7 @@ func rulePF4(pkgs ...string) Rule {
 					rr.Bad(t, key, t.Pos(), "goroutine root has an empty body")
 					continue
 				}
-				fl := deferredLit(t.Body.List[0])
+				fl := c.rootHandler(t)
 				if fl == nil {
 					rr.Bad(t, key, t.Pos(), "the first statement of the goroutine root is not a deferred closure")
 					continue
@@ -435,9 +435,32 @@ func rulePF5() Rule {
 	return Rule{ID: "PF5", Kind: "must", Floor: 2,
 		Doc: "in Eval, yyParse runs after a deferred closure that recovers, records an ArithExprError and returns it; no explicit panic with a non-error operand is reachable from yyParse in the caller's goroutine",
 		Run: func(c *Ctx, rr *core.RuleResult) {
-			f := c.mustFn(rr, "interp.(*ExecEnv).Eval")
+			// the entry point: the function of package interp that runs yyParse
+			// (Eval itself, or the function Eval hands the work to)
+			var f *core.Func
+			for _, g := range c.funcsOfPkg("interp", false) {
+				if g.Decl == nil || f != nil {
+					continue
+				}
+				for _, st := range g.Body.List {
+					ast.Inspect(st, func(n ast.Node) bool {
+						if _, isLit := n.(*ast.FuncLit); isLit {
+							return false
+						}
+						if call, ok := n.(*ast.CallExpr); ok {
+							if id, ok := call.Fun.(*ast.Ident); ok && id.Name == "yyParse" {
+								f = g
+							}
+						}
+						return true
+					})
+				}
+			}
 			if f == nil {
-				return
+				f = c.mustFn(rr, "interp.(*ExecEnv).Eval")
+				if f == nil {
+					return
+				}
 			}
 			info := f.Info()
 			var parseIdx, deferIdx = -1, -1
@@ -467,7 +490,7 @@ func rulePF5() Rule {
 					return true
 				})
 			}
-			key := f.Name + "|recover-before-yyParse"
+			key := "interp.(*ExecEnv).Eval|recover-before-yyParse"
 			switch {
 			case parseIdx < 0:
 				rr.Unk(f, key, f.Pos(), "no top-level yyParse call found in Eval")
